@@ -358,7 +358,9 @@ func (st *c12State) execOne(run *c12Run) (c12Outcome, error) {
 	}
 	op := run.Op
 	if run.Env == "dir-missing" || run.Env == "dir-is-file" {
-		if op.Cwd == "dot" || op.Cwd == "" {
+		// the process cannot start inside (or through a link to) a directory
+		// that does not exist: name it from its parent
+		if op.Cwd != "abs" && op.Cwd != "absslash" && op.Cwd != "relslash" {
 			op.Cwd = "rel"
 		}
 	}
@@ -616,6 +618,18 @@ func CheckC12(tier string, seed uint64, rep *core.Reporter) (*core.Evidence, err
 				def.Rules = append(append([]*specgen.LexRule{dupA}, def.Rules...), dupB)
 				doRun(&c12Run{ID: fmt.Sprintf("%d-x", wi), Files: cs.ProjectFiles(gv), Kind: "cross-file-lexer-conflict",
 					Op: Op{Kind: "Gen", Binary: "sim", Map: randMap(r), Cwd: cwdModes[r.Intn(len(cwdModes))]}})
+			}
+			// regeneration after an edit of the Go sources only (the grammar files
+			// keep their timestamps): the package changed in a way that matters
+			for k, defect := range []string{"", "no-token"} {
+				g2 := gv
+				g2.Defect = defect
+				s2 := cloneSpec(spec)
+				for _, rr := range s2.Rules {
+					rr.Ret = (rr.Ret + 1) % 4
+				}
+				doRun(&c12Run{ID: fmt.Sprintf("%d-go%d", wi, k), Files: s2.ProjectFiles(g2), Pre: clone(), Kind: "regenerate-go-only-edit",
+					Op: Op{Kind: "Gen", Binary: []string{"sim", "plain"}[r.Intn(2)], Map: randMap(r), Cwd: cwdModes[r.Intn(len(cwdModes))]}})
 			}
 			// grammars that are not LALR(1): must be diagnosed, not crash
 			for k := 0; k < 3; k++ {
